@@ -118,6 +118,17 @@ def _structure_job(args):
         m, n = int(rng.integers(1, 7)), int(rng.integers(1, 7))
         G = rng.standard_normal((m, n, 4))
         measure(rec, ("wide-" if m < n else "") + "gaussian", {"shape": [m, n], "A": G.tolist(), "structure": "gaussian"}, G)
+    # block structures with exactly zero blocks (full rank): block diagonal, block upper / lower triangular
+    for (m, n) in ((4, 4), (6, 4), (4, 6), (7, 7)):
+        G = rng.standard_normal((m, n, 4))
+        hm, hn = m // 2, n // 2
+        for which in ("block-diagonal", "block-upper", "block-lower"):
+            B = G.copy()
+            if which in ("block-diagonal", "block-upper"):
+                B[hm:, :hn] = 0
+            if which in ("block-diagonal", "block-lower"):
+                B[:hm, hn:] = 0
+            measure(rec, ("wide-" if m < n else "") + "block-structure", {"shape": [m, n], "structure": which, "A": B.tolist()}, B)
     # ill-conditioned (graded singular values, cond 2^10 .. 2^40) tall-skinny, square and wide inputs: orthonormality of Q
     # must not depend on the conditioning (a Gram-matrix based shortcut squares it)
     for (m, n) in ((8, 2), (12, 3), (9, 1), (16, 4), (5, 5), (3, 6)) + (((24, 5), (40, 3)) if thorough else ()):
